@@ -467,6 +467,18 @@ void MEDDLY::ct_entry_type::removeAllCTEntriesWithForest(const forest* f)
         // Still here?
         // We have an operation cache that uses forest f.
         // Clear it.
+        //
+        if (all_entries[i]->destroyWhenEmpty) {
+            //
+            // The operation is already gone (e.g., another of its
+            // forests was destroyed); removing the last entry would
+            // delete this entry type, and the table with it, from
+            // inside removeAll(). Delete the entry type here instead:
+            // its destructor empties the table first.
+            //
+            delete all_entries[i];
+            continue;
+        }
         all_entries[i]->CT->removeAll();
     }
 }
